@@ -23,3 +23,61 @@ Theorem C04_accepted_block_txs_bound_to_chain : forall is_name cid_of tx_hash vm
   Forall (fun t => t_chain t = c_chain cfg /\ t_hash t = tx_hash t) txs.
 Proof. exact exec_txs_all_executed. Qed.
 Print Assumptions C04_accepted_block_txs_bound_to_chain.
+
+From Verif Require Import Ledger.BlockProofs Ledger.NonceBase Ledger.NonceTx Ledger.NonceChain.
+
+(** an executed transaction sets its sender's nonce to the tx nonce, nobody else's nonce moves *)
+Theorem C04_exec_tx_nonces : forall is_name cid_of tx_hash vm cfg bno s t o s',
+  exec_tx is_name cid_of tx_hash vm cfg bno s t = (o, s') -> o <> Rejected ->
+  nonce (acct_of s' (resolve is_name s (t_from t))) = t_nonce t /\
+  forall id, id <> resolve is_name s (t_from t) -> nonce (acct_of s' id) = nonce (acct_of s id).
+Proof. exact exec_tx_nonces. Qed.
+Print Assumptions C04_exec_tx_nonces.
+
+(** main chain nonces: for every chain (list of blocks accepted by exec_block) from any state s,
+    the nonces executed for each account, in order, are n0+1, n0+2, ... (n0 = its nonce in s),
+    and its nonce at the tip is n0 + number of its executed transactions *)
+Theorem C04_main_chain_nonces : forall is_name cid_of tx_hash vm sig_ok cfg vr bl s s',
+  vreward_nn vr ->
+  exec_chain is_name cid_of tx_hash vm sig_ok cfg vr s bl = Some s' ->
+  forall a,
+    nonces_of a (trace_chain is_name cid_of tx_hash vm sig_ok cfg vr s bl)
+      = nseq (nonce (acct_of s a) + 1) (length (nonces_of a (trace_chain is_name cid_of tx_hash vm sig_ok cfg vr s bl))) /\
+    nonce (acct_of s' a) = (nonce (acct_of s a) + N.of_nat (length (nonces_of a (trace_chain is_name cid_of tx_hash vm sig_ok cfg vr s bl))))%N.
+Proof. exact main_chain_nonces. Qed.
+Print Assumptions C04_main_chain_nonces.
+
+(** reorganisations: both branches of a fork are chains from the common origin (the state at a
+    tip is the fold of exec_block along its branch), so the discipline holds on each *)
+Theorem C04_fork_branches_nonces : forall is_name cid_of tx_hash vm sig_ok cfg vr pre b1 b2 s s1 s2,
+  vreward_nn vr ->
+  exec_chain is_name cid_of tx_hash vm sig_ok cfg vr s (pre ++ b1) = Some s1 ->
+  exec_chain is_name cid_of tx_hash vm sig_ok cfg vr s (pre ++ b2) = Some s2 ->
+  seq_ok s s1 (trace_chain is_name cid_of tx_hash vm sig_ok cfg vr s (pre ++ b1)) /\
+  seq_ok s s2 (trace_chain is_name cid_of tx_hash vm sig_ok cfg vr s (pre ++ b2)).
+Proof. exact fork_branches_nonces. Qed.
+Print Assumptions C04_fork_branches_nonces.
+
+Theorem C04_voting_reward_keeps_nonces : forall reward winner, vreward_nn (send_voting_reward reward winner).
+Proof. exact voting_reward_nn. Qed.
+Print Assumptions C04_voting_reward_keeps_nonces.
+
+(** no transaction hash twice along a chain whose senders are addresses, or the hash collides.
+    The hypothesis on senders is necessary: see C04_no_tx_twice_names_refuted. *)
+Theorem C04_no_tx_twice : forall is_name cid_of tx_hash vm sig_ok cfg vr bl s s',
+  vreward_nn vr -> Forall (fun t => is_name (t_from t) = false) (chain_txs bl) ->
+  exec_chain is_name cid_of tx_hash vm sig_ok cfg vr s bl = Some s' ->
+  NoDup (map tx_hash (chain_txs bl)) \/ collision tx_hash.
+Proof. exact no_tx_twice. Qed.
+Print Assumptions C04_no_tx_twice.
+
+From Verif Require Import Ledger.Refuted.
+(** F25: with name senders the statement is false: the same signed transaction is executed twice
+    along an accepted chain (name re-pointed by its owner in between).  Reproduced on the real
+    chain service by corpus tag f25. *)
+Theorem C04_no_tx_twice_names_refuted :
+  exists is_name cid_of tx_hash vm sig_ok cfg vr bl s s',
+    vreward_nn vr /\ exec_chain is_name cid_of tx_hash vm sig_ok cfg vr s bl = Some s' /\
+    ~ NoDup (chain_txs bl).
+Proof. exact no_tx_twice_names_refuted. Qed.
+Print Assumptions C04_no_tx_twice_names_refuted.
